@@ -401,7 +401,9 @@ theorem nsb_constants : Value.nsb (.record constantsRecord) = true := by decide
 theorem nsbRec_constants : Value.nsbRec constantsRecord = true := by decide
 
 theorem setNameIfLambda_env (s : ES) (n : String) (v : Value) : (setNameIfLambda s n v).env = s.env := by
-  unfold setNameIfLambda; split <;> rfl
+  unfold setNameIfLambda; split
+  · split <;> rfl
+  · rfl
 
 /-! ### forward forms of the data lemmas (equation first), for the `fwd` tactic -/
 
